@@ -25,10 +25,19 @@ What decides (nothing of it uses autobahn's KeyRing or message classes):
   the envelope of this one, altered ``enc_algo`` / ``enc_serializer`` / ``enc_key``: the handler must not run (for
   the enc_* fields, which the box does not authenticate: must not run with anything but the original payload) and
   the call must fail with an explicit encryption error, nothing else;
-* the 24-octet nonces of all ciphertexts the library produced in the process must be pairwise distinct.
+* the 24-octet nonces of all ciphertexts the library produced in the process must be pairwise distinct;
+* KEY RING HISTORY: the key ring is not only built once and used afterwards - while both sessions are joined and AFTER
+  a fixed URI set was driven in every direction, keys are added / replaced / removed on the live ``KeyRing`` objects
+  (``set_key`` for a proper prefix of the URIs in use, for exactly a URI in use, for the default key) or a new payload
+  codec is set on the joined session (``set_payload_codec``), on one side or on both, and the SAME URIs are driven
+  again.  The oracle does not change: the reference rule applied to the layout as it stands after the change decides
+  what must be encrypted (and under which key), recovered, or rejected - so anything the key ring or the session
+  remembered from the earlier use of a URI shows as clear payload / a payload under the superseded key on the wire, or
+  as a handler that ran on a payload sealed under a key the receiver no longer holds.
 """
 
 import base64
+import copy
 import datetime
 import json
 import random
@@ -48,7 +57,13 @@ RULE = ("three case families per (framework, transport, serializer): (1) ROUNDTR
         "EVERY single-octet alteration (XOR 01/80/FF at every offset), every truncation length, 7 extensions, 4 wrong "
         "key pairs, 4 URI swaps, 11 enc_* field alterations, with positive controls (harness-sealed correct payload and "
         "the genuine message are accepted in between); (3) UNENCODABLE - values only the outer serializer can carry "
-        "(datetime, set, object) in every direction, octets searched for the sibling tags.  One evaluation = one "
+        "(datetime, set, object) in every direction, octets searched for the sibling tags; (4) REJOIN - GOODBYE with the "
+        "transport kept, join() again on the same session objects, same traffic; (5) HISTORY - 5 scripted + seeded random "
+        "sequences of key ring changes on JOINED sessions (set_key on the live KeyRing: key of a proper prefix / of exactly "
+        "a URI in use / default key x added, replaced, removed x originator side, responder side, both; "
+        "set_payload_codec with a new key ring or None), the full traffic (4 URIs x {publish, 5 call kinds with a fixed "
+        "error URI each} + prefix subscription + prefix registration) before the first and after every change, always "
+        "over the same URIs, judged by the key ring rule on the layout after the change.  One evaluation = one "
         "exchange or one altered delivery; it is non-trivial when a verdict was taken from the receiving application "
         "or from the octets on the wire; distinct = (framework, transport, serializer, layout, URI, path, payload "
         "shape | fault class + position).")
@@ -67,6 +82,11 @@ ASSUMPTIONS = [
     "alterations of enc_algo / enc_serializer / enc_key (not authenticated by the box, not named in the statement): "
     "accepted outcomes are rejection, a protocol error, or delivery of exactly the original payload",
     "the harness codecs (json/msgpack/cbor2/bjdata) and vf.rfc6455_ref are trusted for decoding what the sessions wrote",
+    "key ring history: 'a keyring active' is read as the key ring AS IT STANDS when a message is written / received "
+    "(KeyRing.set_key and ISession.set_payload_codec are public and documented without a 'before first use' "
+    "restriction); changes are applied only BETWEEN completed exchanges - a change while a call is in flight (CALL "
+    "under the old key, YIELD under the new) is not driven, the statement leaves that open; KeyRing.rotate_key() is not "
+    "driven (it calls Key.rotate(), which does not exist, on the unchanged tree)",
 ]
 DECIDING = {
     "events_compared": 500, "invocations_compared": 1500, "results_compared": 1000, "progress_compared": 600,
@@ -85,6 +105,13 @@ DECIDING = {
     "faults_error_defined_class": 8000, "mapped_errors_compared": 300,
     # messages written in a SECOND / THIRD session joined on the same session objects (GOODBYE, transport kept) and judged
     "second_session_messages_judged": 3000, "rejoins": 100, "rejoin_variants": 12,
+    # key ring HISTORY: changes applied to the live key rings / codecs of joined sessions on which the URIs had already been
+    # driven; exchanges judged after such a change (of those: on URIs whose rule status - key named for the originator /
+    # for the responder - was altered by the change); what the shared verdict code judged in them; distinct op classes
+    # (A|B : p|x|d|c +|~|-) and distinct (op class / originator transition / responder transition) reached
+    "keyring_changes_after_use": 400, "post_change_exchanges": 8000, "post_change_exchanges_status_changed": 3000,
+    "post_change_wire_judged": 15000, "post_change_deliveries_compared": 10000, "post_change_rejections_checked": 1000,
+    "keyring_change_ops": 20, "keyring_change_transitions": 25,
 }
 
 COMBOS = [("websocket", "json"), ("websocket", "msgpack"), ("websocket", "cbor"), ("websocket", "ubjson"),
@@ -313,8 +340,9 @@ class Ctx:
         self.transport = case["transport"]
         self.ser = case["ser"]
         self.lname = case["layout"]["name"]
-        self.side_a = case["layout"]["a"]
-        self.side_b = case["layout"]["b"]
+        # private copies: the key-ring history family edits the reference layout while the case runs
+        self.side_a = copy.deepcopy(case["layout"]["a"])
+        self.side_b = copy.deepcopy(case["layout"]["b"])
         self.rng = random.Random(case["seed"])
         self.tg = TagGen(self.rng)
         self.secrets = []           # (pattern, kind)
@@ -322,6 +350,8 @@ class Ctx:
         self.pair = None
         self.session_no = 1         # > 1: the traffic runs in a later session joined on the SAME session objects
         self.pairs_built = 0
+        self.force_err = None       # error URI the next "raise" script uses (None: seeded choice from ERR_POOL)
+        self.history = None         # key-ring changes applied so far in this case (labels), for violation details
         self.cfg = "%s/%s/%s/%s" % (self.fw, self.transport, self.ser, self.lname)
 
     # -- pair life cycle -------------------------------------------------------------------------
@@ -351,6 +381,8 @@ class Ctx:
     # -- verdicts --------------------------------------------------------------------------------------
     def V(self, key, what, **detail):
         detail.update(config=self.cfg)
+        if self.history:
+            detail.update(keyring_history=" -> ".join(self.history[-8:]))
         self.R.violation(key, what, detail, replay=self.case)
 
     def nontrivial(self, *parts):
@@ -570,6 +602,8 @@ def make_script(ctx, kind):
         return ("progress", steps, ("value", v)), exp
     if kind == "raise":
         uri = rng.choice(ERR_POOL)
+        if ctx.force_err is not None:
+            uri = ctx.force_err
         a, k, tags, _ = gen_payload(rng, tg, rng.choice(["both", "args", "kwargs", "none", "unicode"]))
         return ("raise", uri, a, k), [("error", uri, a, k, tags, False)]
     if kind == "raise_rt":
@@ -1288,7 +1322,245 @@ def family_rejoin(ctx):
     ctx.input_class = "regular"
 
 
-FAMILIES = {"rejoin": family_rejoin, "roundtrip": family_roundtrip, "faults": family_faults, "unencodable": family_unencodable}
+# ------------------------------------------------------------------------------------------------
+# family 5: the key ring changes WHILE the sessions are joined and after URIs were already used
+# ------------------------------------------------------------------------------------------------
+
+# (URI driven in every direction, error URI its endpoint raises): one pair per prefix class of PREFIX_POOL + "no prefix"
+HIST_URIS = [("com.c20.p.a1", "com.c20.p.err1"), ("com.c20.p.q.a2", "com.c20.p.q.err2"), ("com.c20.zz.a4", "com.c20.zerr3"),
+             ("org.c20.a6", "org.c20.err4")]
+HIST_ALL = [u for pair in HIST_URIS for u in pair] + ["wamp.error.runtime_error"]
+HIST_COUNTERS = {  # new counter <- counters of the shared verdict code whose increase it accumulates
+    "post_change_wire_judged": ("wire_encrypted_opened", "wire_clear_by_rule"),
+    "post_change_deliveries_compared": ("events_compared", "invocations_compared", "results_compared", "progress_compared",
+                                        "errors_compared"),
+    "post_change_rejections_checked": ("rejections_checked",),
+}
+
+
+def _both(**op):
+    return [dict(op, who="A"), dict(op, who="B")]
+
+
+def SK(who, prefix, key):
+    """step: KeyRing.set_key(prefix, key) on the live key ring(s) of ``who`` (key None = remove; prefix "" = default key)"""
+    ops = _both(op="set_key", prefix=prefix, key=key) if who == "both" else [{"who": who, "op": "set_key", "prefix": prefix, "key": key}]
+    return {"label": "%s.set_key(%r,%s)" % (who, prefix, key), "ops": ops}
+
+
+def SC(label, a="keep", b="keep"):
+    """step: session.set_payload_codec(new key ring | None) on A and/or B"""
+    ops = [{"who": w, "op": "codec", "side": s} for w, s in (("A", a), ("B", b)) if s != "keep"]
+    return {"label": "set_payload_codec[%s]" % label, "ops": ops}
+
+
+# scripted histories: (name, initial side A, initial side B, steps); the full traffic runs before the first and after
+# every step, always over the SAME URIs
+HISTORIES = [
+    # keys arrive late: URIs first travel in clear under an active but empty key ring, then prefixes get covered
+    ("keys-set-late", K("orig"), K("resp"),
+     [SK("both", "com.c20.p.", 1), SK("both", "com.c20.p.q.", 2), SK("both", "", 0), SK("both", "com.c20.p.q.", None),
+      SK("both", "com.", 3), SK("both", "", None), SK("both", "com.c20.p.", None), SK("both", "com.", None)]),
+    # one side rolls a key, the other follows one step later (in between: wrong key -> must be rejected)
+    ("keys-rolled", K("orig", 0, _PQ), K("resp", 0, _PQ),
+     [SK("B", "com.c20.p.", 3), SK("A", "com.c20.p.", 3), SK("A", "", 5), SK("B", "", 5), SK("A", "com.c20.p.q.", None),
+      SK("B", "com.c20.p.q.", None), SK("B", "wamp.error.", 6), SK("A", "wamp.error.", 6), SK("B", "org.", [0, 3]),
+      SK("B", "org.", None)]),
+    # keys removed on one side only / default key removed
+    ("keys-removed", K("full", 0, {"com.c20.z": 3, "com.c20.p.": 1}), K("full", 0, {"com.c20.z": 3, "com.c20.p.": 1}),
+     [SK("B", "", None), SK("B", "com.c20.p.", None), SK("A", "com.c20.p.", None), SK("A", "", None), SK("A", "com.c20.z", None),
+      SK("B", "com.c20.z", None), SK("both", "", 0), SK("B", "com.c20.p.q.", 2)]),
+    # a key for exactly the URI in use (URI == registered prefix) set / replaced / removed
+    ("exact-uri-keys", K("orig", 0), K("resp", 0),
+     [SK("both", "com.c20.p.a1", 2), SK("both", "com.c20.p.err1", 3), SK("B", "com.c20.p.a1", 1), SK("A", "com.c20.p.a1", 1),
+      SK("both", "wamp.error.runtime_error", 6), SK("both", "com.c20.p.a1", None), SK("both", "com.c20.p.err1", None),
+      SK("both", "wamp.error.runtime_error", None)]),
+    # the payload codec object itself is replaced / removed / installed on joined sessions
+    ("codec-replaced", K("orig", 0), K("resp", 0),
+     [SC("A:prefix-only", a=K("orig", None, _PQ)), SC("B:prefix-only", b=K("resp", None, _PQ)), SC("A:none", a=None),
+      SC("B:none", b=None), SC("both:default4+prefix", a=K("orig", 4, {"com.c20.p.": 1}), b=K("resp", 4, {"com.c20.p.": 1})),
+      SK("both", "com.c20.p.", 2), SC("B:wrong-pair", b=K("resp", [8, 3], {"com.c20.p.": 2})), SC("both:full0", a=K("full", 0), b=K("full", 0))]),
+]
+
+
+def _norm_kid(k):
+    return None if k is None else tuple(sorted(_P()._idx(k)))
+
+
+def hist_status(ctx, uri):
+    """(key A's rule names for originating ``uri``, key B's rule names for responding to ``uri``)"""
+    P = _P()
+    return (_norm_kid(P.ref_has_box(ctx.side_a, True, uri)), _norm_kid(P.ref_has_box(ctx.side_b, False, uri)))
+
+
+def _transition(k0, k1):
+    """'=' unchanged, 'n>k' no key -> key, 'k>n' key -> no key, 'rk' another key  (short: distinct-set members > 24
+    characters are hashed by the recorder)"""
+    if k0 == k1:
+        return "="
+    if k0 is None:
+        return "n>k"
+    if k1 is None:
+        return "k>n"
+    return "rk"
+
+
+def hist_apply(ctx, step):
+    """Apply one step to the REAL key rings / sessions of the live pair and to the reference layout."""
+    R = ctx.R
+    p = ctx.P()
+    used = set(getattr(p, "c20_used", ()))
+    before = {u: hist_status(ctx, u) for u in HIST_ALL}
+    classes = []
+    for op in step["ops"]:
+        who = op["who"]
+        side = ctx.side_a if who == "A" else ctx.side_b
+        if op["op"] == "set_key":
+            if side is None:
+                R.count("keyring_ops_skipped_no_codec")
+                continue
+            prefix, key = op["prefix"], op["key"]
+            if prefix == "":
+                cls = "d" + ("-" if key is None else ("~" if side.get("default") is not None else "+"))
+                side["default"] = key
+            else:
+                had = prefix in side["prefixes"]
+                kind = "x" if prefix in HIST_ALL else "p"
+                cls = kind + ("-" if key is None else ("~" if had else "+"))
+                if key is None:
+                    side["prefixes"].pop(prefix, None)
+                else:
+                    side["prefixes"][prefix] = key
+            p.set_key(who, side["view"], prefix, key)
+        else:
+            new = copy.deepcopy(op["side"])
+            cls = "c" + ("-" if new is None else ("+" if side is None else "~"))
+            if who == "A":
+                ctx.side_a = new
+            else:
+                ctx.side_b = new
+            p.set_codec(who, new)
+        classes.append("%s:%s" % (who, cls))
+    # op classes: p = key of a proper prefix, x = key of exactly a URI in use, d = default key, c = payload codec object;
+    # + added / ~ replaced / - removed; e.g. "A:p+,B:p+" = a prefix key added on both sides in one step
+    opclass = ",".join(classes) or "nothing"
+    after = {u: hist_status(ctx, u) for u in HIST_ALL}
+    changed = set(u for u in HIST_ALL if before[u] != after[u])
+    p.c20_hist_used = used              # URIs that had been driven on THIS pair (these sessions, these key ring objects)
+    p.c20_hist_changed = changed & used
+    ctx.history.append(step["label"])
+    if used:
+        R.count("keyring_changes_after_use")
+        R.seen("keyring_change_ops", opclass)
+    else:
+        R.count("keyring_changes_without_history")
+    for u in sorted(changed & used):
+        R.seen("keyring_change_transitions", "%s/%s/%s" % (
+            opclass, _transition(before[u][0], after[u][0]), _transition(before[u][1], after[u][1])))
+
+
+def hist_exchange(ctx, uris, fn):
+    """Run one exchange of the shared round-trip code; book what it judged when it ran on a pair whose key ring was
+    changed AFTER these URIs had been used on it."""
+    R = ctx.R
+    p0 = ctx.P()
+    with_hist = any(u in getattr(p0, "c20_hist_used", ()) for u in uris)
+    status_changed = any(u in getattr(p0, "c20_hist_changed", ()) for u in uris)
+    watched = set(n for names in HIST_COUNTERS.values() for n in names)
+    snap = dict((n, R.counters.get(n, 0)) for n in watched)
+    fn()
+    if not hasattr(p0, "c20_used"):
+        p0.c20_used = set()
+    p0.c20_used.update(uris)
+    if with_hist:
+        R.count("post_change_exchanges")
+        total = 0
+        for new, names in HIST_COUNTERS.items():
+            d = sum(R.counters.get(n, 0) - snap[n] for n in names)
+            R.count(new, d)
+            total += d
+        if status_changed and total:
+            R.count("post_change_exchanges_status_changed")
+    if ctx.pair is not p0 or not p0.alive():
+        R.count("history_pairs_lost")
+
+
+def hist_traffic(ctx):
+    for uri, err in HIST_URIS:
+        hist_exchange(ctx, [uri], lambda: rt_publish(ctx, uri))
+        for kind in KINDS:
+            ctx.force_err = err
+            extra = {"raise": [err], "raise_rt": ["wamp.error.runtime_error"]}.get(kind, [])
+            try:
+                hist_exchange(ctx, [uri] + extra, lambda: rt_call(ctx, uri, kind))
+            finally:
+                ctx.force_err = None
+    hist_exchange(ctx, ["com.c20.p.q.a2"], lambda: rt_publish(ctx, "com.c20.p.q.a2", sub_topic="com.c20.p.", match="prefix"))
+    hist_exchange(ctx, ["com.c20.p.a1"], lambda: rt_call(ctx, "com.c20.p.a1", "callresult", reg="com.c20.", match="prefix"))
+
+
+def family_history(ctx):
+    """Key ring HISTORY: traffic over a fixed URI set -> a change of the key ring (set_key on the live KeyRing object for
+    a proper prefix / the exact URI / the default key: added, replaced, removed; or a new payload codec set on the joined
+    session) on one or both sides -> the SAME URIs again, in every direction.  The oracle is the unchanged key ring rule
+    applied to the layout as it stands after the change: whatever the sessions or the key ring remembered from earlier
+    use of a URI must not show."""
+    R = ctx.R
+    ctx.history = ["initial:" + ctx.lname]
+    R.seen("layouts", ctx.lname if not ctx.lname.startswith("rnd") else "rnd/" + _hash(ctx.case["layout"]))
+    ctx.P()
+    hist_traffic(ctx)
+    for step in ctx.case["steps"]:
+        hist_apply(ctx, step)
+        ctx.input_class = "after-keyring-change"
+        hist_traffic(ctx)
+    ctx.input_class = "regular"
+
+
+def random_history(rng, nsteps):
+    """-> (layout, steps): a random initial layout and ``nsteps`` random changes (removals / replacements pick among what
+    is set at that moment so that they take effect)."""
+    lay = random_layout(rng)
+    sim = {"A": copy.deepcopy(lay["a"]), "B": copy.deepcopy(lay["b"])}
+    steps = []
+    for _ in range(nsteps):
+        c = rng.random()
+        who = rng.choice(["both", "both", "A", "B", "B"])
+        sides = ["A", "B"] if who == "both" else [who]
+        if c < 0.15 or all(sim[w] is None for w in sides):
+            other = random_layout(rng)
+            new = {"A": other["a"], "B": other["b"]}
+            if rng.random() < 0.15:
+                new[rng.choice(sides)] = None
+            steps.append(SC("%s:rnd" % who, a=new["A"] if "A" in sides else "keep", b=new["B"] if "B" in sides else "keep"))
+            for w in sides:
+                sim[w] = copy.deepcopy(new[w])
+            continue
+        have = sorted(set(pf for w in sides if sim[w] is not None for pf in sim[w]["prefixes"]))
+        has_default = any(sim[w] is not None and sim[w].get("default") is not None for w in sides)
+        if c < 0.45 and (have or has_default):
+            prefix = rng.choice(have + ([""] if has_default else []))       # remove something that is set
+            key = None
+        elif c < 0.65 and (have or has_default):
+            prefix = rng.choice(have + ([""] if has_default else []))       # replace something that is set
+            key = rng.choice([1, 2, 3, 5, 6, [2, 3], [6, 1]])
+        else:
+            prefix = rng.choice(PREFIX_POOL + ["", "org.", "com.c20.p.a1", "com.c20.p.q.err2", "org.c20.a6"])
+            key = rng.choice([0, 1, 2, 3, 5, 6, [2, 3]])
+        steps.append(SK(who, prefix, key))
+        for w in sides:
+            if sim[w] is None:
+                continue
+            if prefix == "":
+                sim[w]["default"] = key
+            elif key is None:
+                sim[w]["prefixes"].pop(prefix, None)
+            else:
+                sim[w]["prefixes"][prefix] = key
+    return lay, steps
+
+
+FAMILIES = {"history": family_history, "rejoin": family_rejoin, "roundtrip": family_roundtrip, "faults": family_faults, "unencodable": family_unencodable}
 
 
 def run_case(case, R):
@@ -1383,6 +1655,14 @@ def cases_for(params):
         name, a, b = LAYOUTS[[1, 0, 2, 3, 5, 9, 13][(k + ci + seed) % 7]]
         cases.append(dict(base, family="rejoin", layout={"name": name, "a": a, "b": b}, seed=rng.getrandbits(48),
                           who=who, initiator=ini, codec_mode=mode))
+    # --- key ring history: the key ring changes while the sessions are joined, after the URIs were already used
+    for name, a, b, steps in HISTORIES:
+        cases.append(dict(base, family="history", layout={"name": "history/" + name, "a": a, "b": b}, seed=rng.getrandbits(48),
+                          steps=steps))
+    nh, hsteps = {"quick": (2, 5), "thorough": (24, 8), "thorough-purepy": (8, 8)}[tier]
+    for _ in range(nh):
+        lay, steps = random_history(rng, hsteps)
+        cases.append(dict(base, family="history", layout=lay, seed=rng.getrandbits(48), steps=steps))
     # --- values the inner codec cannot carry
     name, a, b = LAYOUTS[[1, 0, 2][(ci + seed) % 3]]
     cases.append(dict(base, family="unencodable", layout={"name": name, "a": a, "b": b}, seed=rng.getrandbits(48)))
@@ -1393,7 +1673,8 @@ def run_shard(params, R):
     transport, ser = COMBOS[params["combo"]]
     R.seen("configs", "%s/%s/%s%s" % (params["fw"], transport, ser, "/purepy" if params["tier"].endswith("purepy") else ""))
     for k in DECIDING:
-        if k not in ("enc_error_uris", "layouts", "pattern_policies", "rejoin_variants"):
+        if k not in ("enc_error_uris", "layouts", "pattern_policies", "rejoin_variants", "keyring_change_ops",
+                     "keyring_change_transitions"):
             R.count(k, 0)
     for case in cases_for(params):
         run_case(case, R)
@@ -1417,13 +1698,17 @@ MANIFEST_ENTRY = {
              "the receiving handler / call outcome must equal the originator's data for matching key rings and be a rejection "
              "(encryption error for calls) otherwise. Fault enumeration on matched layouts: every single octet of a genuine "
              "ciphertext XOR 01/80/FF, every truncation, extensions, harness-sealed payloads under wrong key pairs, swapped "
-             "envelope URIs, altered enc_* fields, on all five paths, with positive controls in between. Held = no deviation "
+             "envelope URIs, altered enc_* fields, on all five paths, with positive controls in between. Key ring history: on "
+             "joined sessions, after the URIs were used, keys are added / replaced / removed on the live KeyRing (proper "
+             "prefix, exact URI, default key; one side or both) or the payload codec is replaced, and the same URIs are driven "
+             "again under the same oracle applied to the layout after the change. Held = no deviation "
              "on the executions listed in the evidence; not a proof."),
     "note": ("known finding S-20: a result the inner JSON codec cannot encode is sent in clear (YIELD over CBOR) or echoed "
              "in a clear invalid_payload ERROR (other serializers). Not asserted: replay/reflection of genuine ciphertexts, "
              "swaps between results of the same procedure, session survival after a rejected message, the outcome of calls "
              "whose result cannot be encrypted, exact equality on the clear path; enc_* field alterations only must not "
-             "deliver anything but the original payload. Trusts PyNaCl and the harness codecs."),
+             "deliver anything but the original payload; key ring changes while a call is in flight; rotate_key(). Trusts "
+             "PyNaCl and the harness codecs."),
     "technique": "runtime monitoring: history + independent key-ring rule, unique payload tags searched in the transport "
                  "octets, PyNaCl opening of observed ciphertexts, exhaustive single-octet / truncation fault enumeration "
                  "with positive controls on virtual-clock worlds",
